@@ -131,6 +131,9 @@ def c02(tier):
     for m in pay[:60 if tier == "quick" else 600]:
         n = len(m)
         cases.append(procset_case(m, 64, [{"chunks": []}, {"chunks": [1] * n}] + [{"chunks": [k, n - k]} for k in range(1, n)]))
+    for c in cases:
+        if c["kind"] in ("run", "runs") and s.rng.random() < 0.15:
+            c["susp"] = [s.rng.randint(0, 3) for _ in range(s.rng.randint(1, 5))]      # handler and writer futures return Pending
     recs = s.execute(cases, "c02")
     rejected = s.validate(recs, "c02")
     s.report_rejected(rejected, "handler calls / errors / output differ from what the path rules of the specification allow")
@@ -420,6 +423,9 @@ def c06(tier):
         cases.append(run_case(whole))
         cases.append(proc_case(whole, 64, random_chunks(s.rng, len(whole))))
         cases.append(proc_case(whole, 47, [len(m) for m in msgs]))
+    for c in cases:
+        if c["kind"] in ("run", "runs") and s.rng.random() < 0.15:
+            c["susp"] = [s.rng.randint(0, 3) for _ in range(s.rng.randint(1, 5))]      # handler and writer futures return Pending
     recs = s.execute(cases, "c06")
     rejected = s.validate(recs, "c06")
     s.report_rejected(rejected, "a faulty message was not reported exactly once, or it changed what an earlier unit / a later message did")
